@@ -2,7 +2,11 @@
 
 package generator
 
-import "github.com/EliCDavis/polyform/generator/graph"
+import (
+	"net/http"
+
+	"github.com/EliCDavis/polyform/generator/graph"
+)
 
 // VerifGraphInstance gives the deterministic simulation harness access to the
 // graph instance behind an App, so that it can edit the graph with the same
@@ -11,4 +15,15 @@ import "github.com/EliCDavis/polyform/generator/graph"
 func (a *App) VerifGraphInstance() *graph.Instance {
 	a.initGraphInstance()
 	return a.graphInstance
+}
+
+// VerifRequestHandlers returns the edit server's own request handlers for
+// parameter values (POST/GET /parameter/value/<id>) and producer values
+// (GET /producer/value/<name>) around the given graph instance, without
+// autosave, so that the simulation harness can drive the three graph entry
+// points through the code path a request takes (body reader, path parsing,
+// panic recovery, buffered artifact write). Compiled in with -tags verif only.
+func VerifRequestHandlers(inst *graph.Instance) (parameterValue, producerValue http.Handler) {
+	as := &AppServer{app: &App{graphInstance: inst}}
+	return parameterValueEndpoint(inst, nil), http.HandlerFunc(as.ProducerEndpoint)
 }
